@@ -20,6 +20,16 @@ FIRST_MISSED = {
     "C08-D": "rejected parses that have already registered strings (unknown prefix, mismatched end tag ...) among the opaque calls; panics of the tables are logged as events",
     "C19-C": "HTML text / attribute values built from digraphs (&{ &# &amp &x; ]]> </) instead of single characters",
     "C19-D": "MCHtmlNs: 11 232 layouts of prefixed / generated declarations around void elements and later siblings",
+    "C01-F": "PI targets that start with the reserved name (xml-stylesheet, xmlx, XmL1) in forests and rendered documents",
+    "C02-E": "Latin-1 / windows-1252 documents whose high bytes happen to form well-formed UTF-8 (Ã© = C3 A9)",
+    "C05-E": "explicitly created EMPTY text nodes: enumerated forests with one text node emptied, and 'sandwich' forests (text / non-text alternating, texts possibly empty) under every call",
+    "C08-E": "interning texts with a prefix (or the default namespace) rebound on an inner element and used again behind it: both expanded names must be found afterwards; also reported by C02",
+    "C12-F": "xml_id_node of a document created by the call must lie inside it (new clause under C12); clone profile parses xml:id documents and clones whole documents",
+    "C14-E": "a non-ASCII character in the bracket strings (] > x < CR e-acute up to length 4 / 5)",
+    "C17-F": "any white space between a PI's target and its data (two spaces, newline + indent, CR LF)",
+    "C18-E": "MCWs restructured: doc / d / r[xml:space] / a[xml:space] / K with white space (and an element holding white space) behind r - 24 864 layouts",
+    "C20-E": "attributes and declarations also built as nodes (new_attribute_node + append_attribute_node / any_append) in the stepwise programs",
+    "C20-F": "75 'scope exit' documents (a binding made or shadowed on an inner element must be gone again behind it) in several spellings, for C20 and C02 / C03 / C17",
 }
 
 
@@ -32,7 +42,7 @@ def main():
         m = json.load(open(mp))
         n = m.get("needs_to_manifest", "")
         t = n.split("##")[0].strip("# ").strip()
-        t = re.sub(r"^(C\d\d[- ]?(seeded )?(mutant )?[AB]|Mutant [AB]|C\d\d-[AB])\s*[-:—]+\s*", "", t, flags=re.I)
+        t = re.sub(r"^(C\d\d[- ]?(seeded )?(mutant )?[AB]|Mutant [AB]|C\d\d-[AB])\s*[-:—(]+\s*", "", t, flags=re.I)
         p = open(os.path.join(ROOT, "seeded", d, "patch.diff")).read()
         files = sorted(set(re.findall(r"^\+\+\+ b/src/(\S+)", p, re.M)))
         first = "missed" if d in FIRST_MISSED else "caught"
